@@ -89,4 +89,4 @@ def run(ctx):
                        "the mutex), sleeps vary the order; classes: lost signal then wait, broadcast while a third actor holds "
                        "the mutex, random, wait without owning the mutex; MC: waiter x notifiers, all interleavings (may end in "
                        "the deadlock of a lost signal). non-trivial = accepted trace in which a wait returned (MC: complete)")
-    synclib.standard_run(ctx, gen_normal, gen_mc, nontrivial, quick=(100, 3), thorough=(3000, 30))
+    synclib.standard_run(ctx, gen_normal, gen_mc, nontrivial, quick=(100, 3), thorough=(1500, 12))
